@@ -62,6 +62,23 @@ Theorem C29_damping_dissipates :
 Proof. exact damping_dissipates. Qed.
 Print Assumptions C29_damping_dissipates.
 
+(* actuator-inherited damping (mj_actuatorDamping): the effective coefficients are the joint's / tendon's
+   own plus coefficient * gear^2 for every actuator driving it; with non-negative coefficients they are
+   non-negative for gears of any sign and magnitude, hence the damper still never adds energy *)
+Theorem C29_actuator_damping_closed_form :
+  forall b0 g1 d1 g2 d2 : R,
+    fst (effDamping b0 [] [(g1, d1, []); (g2, d2, [])]) = b0 + d1 * (g1 * g1) + d2 * (g2 * g2).
+Proof. exact effDamping_two. Qed.
+Print Assumptions C29_actuator_damping_closed_form.
+
+Theorem C29_actuator_damping_dissipates :
+  forall (b0 : R) (poly0 : list R) (acts : list (R * R * list R)) (v : R),
+    0 <= b0 -> List.Forall (fun c : R => 0 <= c) poly0 ->
+    List.Forall (fun a : R * R * list R => 0 <= snd (fst a) /\ List.Forall (fun c : R => 0 <= c) (snd a)) acts ->
+    v * damperForce (fst (effDamping b0 poly0 acts)) (snd (effDamping b0 poly0 acts)) v <= 0.
+Proof. exact actuator_damping_dissipates. Qed.
+Print Assumptions C29_actuator_damping_dissipates.
+
 (* tendon damping: the generalized force J^T f with f = damperForce(b, poly, J.qvel) has power
    qvel . (J^T f) = (J . qvel) f <= 0 *)
 Theorem C29_tendon_damping_dissipates :
